@@ -13,7 +13,7 @@ ID = 'C19'
 LEVEL = 'exploration'
 RULE = ('timelines of 1-5 events (thorough: 1-6) over times {0,.5,1,1.5,2,2.5,3,5} with duplicate times and '
         'overlapping variables (2 ports, 4 variables), random listing order, timeline timestep in '
-        '{0.5,1,2}, run length in {4,6,8}, TimelineProcess used directly or through add_timeline (with '
+        '{0.5,1,2}, one update() of length 4, 6 or 8 or 2-4 update() calls of lengths {0.5,...,4} that cut ticks short, TimelineProcess used directly or through add_timeline (with '
         'and without path overrides), other process present or not; the first 2000 quick cases enumerate '
         'all permutations of fixed small timelines; non-trivial = >=2 events and (unsorted listing or '
         'duplicate time or >=2 events due in one tick); distinct = distinct case spec')
@@ -23,7 +23,7 @@ ANCHORS = ['vivarium.processes.timeline:TimelineProcess.initialize_timeline',
            'vivarium.processes.timeline:TimelineProcess.next_update',
            'vivarium.processes.timeline:TimelineProcess.ports_schema',
            'vivarium.core.composition:add_timeline']
-ASSUMPTIONS = ['dyadic times/timesteps (float arithmetic exact); run length a multiple of the timestep',
+ASSUMPTIONS = ['dyadic times/timesteps (float arithmetic exact)',
                'event values are scalars (ints/strings)']
 
 TIMES = [0, 0.5, 1, 1.5, 2, 2.5, 3, 5]
@@ -60,7 +60,10 @@ def gen(r, tier, i):
             if j != i_src and r.random() < 0.5:
                 events[j][1] = copy.deepcopy(events[i_src][1])
                 share.append([i_src, j])
-    return {'events': events, 'share': share, 'ts': r.choice([0.5, 1, 2]), 'run': r.choice([4, 6, 8]),
+    # the run is one update() or several, whose lengths need not be multiples of the timeline's timestep
+    # (the last tick of a call is then cut short, and the next call starts a new tick)
+    runs = [r.choice([0.5, 1, 1.5, 2.5, 3, 4]) for _ in range(r.randint(2, 4))] if r.random() < 0.35 else None
+    return {'events': events, 'share': share, 'ts': r.choice([0.5, 1, 2]), 'run': r.choice([4, 6, 8]), 'runs': runs,
             'entry': r.choice(['direct', 'add_timeline', 'add_timeline_paths']), 'other': r.random() < 0.4}
 
 
@@ -77,17 +80,19 @@ def model(events, ts, run, driven):
     bump()
     out = {0.0: dict(vals)}
     fired = set()
-    n = int(round(run / ts))
-    for k in range(n):
-        c = k * ts
-        due = [j for j, (t, _) in enumerate(events) if t <= c and j not in fired]
-        due.sort(key=lambda j: (events[j][0], j))
-        for j in due:
-            fired.add(j)
-            for var, x in events[j][1]:
-                vals[tuple(var)] = x
-        bump()
-        out[(k + 1) * ts] = dict(vals)
+    c = 0.0
+    for iv in (run if isinstance(run, list) else [run]):
+        end = c + iv
+        while c < end:
+            due = [j for j, (t, _) in enumerate(events) if t <= c and j not in fired]
+            due.sort(key=lambda j: (events[j][0], j))
+            for j in due:
+                fired.add(j)
+                for var, x in events[j][1]:
+                    vals[tuple(var)] = x
+            bump()
+            c = min(c + ts, end)
+            out[c] = dict(vals)
     return out
 
 
@@ -165,13 +170,14 @@ def run(spec):
     try:
         e = Engine(processes=processes, steps=steps, topology=topology, initial_state=init,
                    display_info=False)
-        e.update(spec['run'])
+        for iv in spec.get('runs') or [spec['run']]:
+            e.update(iv)
         data = e.emitter.get_data()
     except Exception as ex:
         import traceback
         V.check('trajectory', False, ('engine raised', type(ex).__name__, str(ex)[:200], traceback.format_exc()[-500:]))
         data = None
-    exp = model(events, ts, spec['run'], driven)
+    exp = model(events, ts, spec.get('runs') or spec['run'], driven)
     stats = {}
     if data is not None:
         got = {}
@@ -198,7 +204,8 @@ def run(spec):
     return {'viol': list(V), 'evals': V.evals, 'stats': stats, 'nontrivial': nontrivial,
             'classes': ['unsorted' if times != sorted(times) else 'sorted',
                         'dup_times' if len(set(times)) < len(times) else 'unique_times',
-                        'several_per_tick' if same_tick else 'one_per_tick', spec['entry']],
+                        'several_per_tick' if same_tick else 'one_per_tick', spec['entry'],
+                        'several_calls' if spec.get('runs') else 'one_call'],
             'summary': {'events': len(events), 'ticks': len(exp)}}
 
 
